@@ -534,6 +534,32 @@ def _same_binding(ix, fi, defmod, name):
     return a[1:] == b[1:]
 
 
+def _value_display(val):
+    """display of an evaluated constant made of strings / booleans / None in tuples, lists, sets and dicts (None otherwise:
+    numbers would lose the names of the column constants they come from)"""
+    if isinstance(val, str) or val is None or isinstance(val, bool):
+        return ast.Constant(value=val)
+    if isinstance(val, (tuple, list)):
+        items = [_value_display(x) for x in val]
+        if any(i is None for i in items):
+            return None
+        return (ast.Tuple if isinstance(val, tuple) else ast.List)(elts=items, ctx=ast.Load())
+    if isinstance(val, (set, frozenset)):
+        try:
+            items = [_value_display(x) for x in sorted(val)]
+        except TypeError:
+            return None
+        if not items or any(i is None for i in items):
+            return None
+        return ast.Set(elts=items)
+    if isinstance(val, dict):
+        ks, vs = [_value_display(k) for k in val], [_value_display(v) for v in val.values()]
+        if any(x is None for x in ks + vs):
+            return None
+        return ast.Dict(keys=ks, values=vs)
+    return None
+
+
 class _ConstValue:
     """conversion of the defining expression of a named constant into a display that can stand at the place of use"""
 
@@ -551,6 +577,19 @@ class _ConstValue:
         return self.convert(e, modname, depth, top=True)
 
     def convert(self, e, modname, depth, top=False):
+        v = self._convert(e, modname, depth, top)
+        computed = isinstance(e, (ast.ListComp, ast.SetComp, ast.DictComp, ast.GeneratorExp, ast.JoinedStr, ast.BinOp)) or \
+            (isinstance(e, ast.Call) and isinstance(e.func, ast.Name) and e.func.id in ("tuple", "list", "set", "frozenset", "dict", "sorted"))
+        if v is None and computed:
+            # a computed constant (tuple(x + "_geodata" for x in NAMES)): evaluated, if the result consists of strings only
+            try:
+                val = self.ix.eval_const(modname, e)
+            except Exception:  # noqa
+                return None
+            return _value_display(val)
+        return v
+
+    def _convert(self, e, modname, depth, top=False):
         if isinstance(e, ast.Constant):
             if top and not isinstance(e.value, str):
                 return None                     # numbers (column indices, physical constants) keep their names
@@ -600,6 +639,17 @@ class _ConstValue:
             if not isinstance(new, ast.Set):
                 new.ctx = ast.Load()
             return new
+        if isinstance(e, ast.Call) and not top and not e.keywords and len(e.args) <= 2:
+            # an element built by a library constructor (dtype(object)): kept as the call it is
+            names = [n.id for n in ast.walk(e) if isinstance(n, ast.Name)]
+            try:
+                lib = isinstance(e.func, (ast.Name, ast.Attribute)) and all(
+                    (self.ix.resolve(modname, nm) or ("external",))[0] == "external" for nm in names)
+            except Exception:  # noqa
+                lib = False
+            if lib and all(nm not in self.local and _same_binding(self.ix, self.fi, modname, nm) for nm in names):
+                return copy.deepcopy(e)
+            return None
         if isinstance(e, ast.BinOp) and isinstance(e.op, ast.Add):
             a, b = self.convert(e.left, modname, depth), self.convert(e.right, modname, depth)
             if isinstance(a, (ast.Tuple, ast.List)) and type(a) is type(b):
@@ -727,6 +777,62 @@ class _ConstSubst(ast.NodeTransformer):
         return node
 
 
+class _Dispatch(ast.NodeTransformer):
+    """two table-driven spellings of an if / elif chain are turned back into the chain:
+
+      for a, f in ((A1, F1), (A2, F2)):            a, f = A1, F1
+          if test(a):                              if test(a): body
+              body; break              ==>         else:
+      else:                                            a, f = A2, F2
+          tail                                         if test(a): body
+                                                       else: tail
+      {K1: V1, K2: V2}[x]              ==>         V1 if x == K1 else V2      (x not in the table raises in both spellings
+                                                                                before anything else happens; the chain
+                                                                                continues with V2 there, which adds paths
+                                                                                and removes none)
+    """
+
+    def __init__(self):
+        self.changed = False
+
+    def visit_For(self, node):
+        node = self.generic_visit(node)
+        it = node.iter
+        if not (isinstance(it, (ast.Tuple, ast.List)) and 1 <= len(it.elts) <= 8 and not any(isinstance(x, ast.Starred) for x in it.elts)):
+            return node
+        body = node.body
+        if not body or not isinstance(body[-1], ast.If) or body[-1].orelse:
+            return node
+        last = body[-1]
+        if not last.body or not isinstance(last.body[-1], ast.Break):
+            return node
+        inner = body[:-1] + last.body[:-1]
+        if any(isinstance(x, (ast.Break, ast.Continue)) for st in inner for x in ast.walk(st)):
+            return node
+        tail = list(node.orelse)
+        for elt in reversed(it.elts):
+            bind = ast.Assign(targets=[copy.deepcopy(node.target)], value=copy.deepcopy(elt), lineno=node.lineno)
+            for n in ast.walk(bind.targets[0]):
+                if isinstance(n, (ast.Name, ast.Tuple, ast.List)):
+                    n.ctx = ast.Store()
+            test = ast.If(test=copy.deepcopy(last.test), body=copy.deepcopy(last.body[:-1]) or [ast.Pass()], orelse=tail)
+            tail = [ast.copy_location(bind, node)] + copy.deepcopy(body[:-1]) + [ast.copy_location(test, last)]
+        self.changed = True
+        return tail
+
+    def visit_Subscript(self, node):
+        node = self.generic_visit(node)
+        v = node.value
+        if isinstance(node.ctx, ast.Load) and isinstance(v, ast.Dict) and 2 <= len(v.keys) <= 8 and isinstance(node.slice, ast.Name) \
+                and all(isinstance(k, ast.Constant) for k in v.keys):
+            out = v.values[-1]
+            for k, val in reversed(list(zip(v.keys[:-1], v.values[:-1]))):
+                out = ast.IfExp(test=ast.Compare(left=copy.deepcopy(node.slice), ops=[ast.Eq()], comparators=[k]), body=val, orelse=out)
+            self.changed = True
+            return ast.copy_location(out, node)
+        return node
+
+
 def const_substituted(ix, fi):
     """fi's tree as written with the package's named constants replaced by their displays (the raw tree when there are none)"""
     got = getattr(fi, "_constsub", None)
@@ -739,7 +845,13 @@ def const_substituted(ix, fi):
         node = t.visit(node)
     except RecursionError:
         t.changed = False
-    if t.changed:
+    d = _Dispatch()
+    if t.changed or any(isinstance(n, ast.For) and isinstance(n.iter, (ast.Tuple, ast.List)) for n in ast.walk(node)):
+        try:
+            node = d.visit(node)
+        except RecursionError:
+            pass
+    if t.changed or d.changed:
         ast.fix_missing_locations(node)
         fi._constsub = node
     else:
